@@ -368,6 +368,7 @@ type sideResult struct {
 	delivered []msgT
 	firstErr  error
 	lateOK    bool  // a read after the first error succeeded (must never happen)
+	extra     []bool // results (ok?) of the reads attempted after the first error
 	writeErr  error // unexpected error of an honest writer whose frames were within the limit
 	wireBad   bool  // Conn.Write returned a wire size different from the planned one
 }
@@ -410,7 +411,9 @@ func endpoint(conn *rlpx.Conn, dx *duplex, snap bool, out []msgT, res *sideResul
 			res.delivered = append(res.delivered, msgT{Code: code, Payload: append([]byte{}, data...)})
 		}
 		for i := 0; i < 2; i++ { // nothing may be delivered after an error
-			if _, _, _, err := conn.Read(); err == nil {
+			_, _, _, err := conn.Read()
+			res.extra = append(res.extra, err == nil)
+			if err == nil {
 				res.lateOK = true
 			}
 		}
@@ -646,8 +649,147 @@ func limitCases(r *rand.Rand, sum *tl.Summary) {
 	}
 }
 
+// ---------------------------------------------------------------- fuzz mode (V)
+
+func randCase(r *rand.Rand) caseT {
+	hsr := []string{"prefix", "ephem", "iv", "ct", "mac"}
+	fr := []string{"hsize", "hrest", "hmac", "body", "pad", "fmac"}
+	c := caseT{Auth: pkt{Present: true, Flip: "none", Bad: "none"}, Ack: pkt{Flip: "none", Bad: "none"}}
+	switch r.Intn(12) {
+	case 0:
+		c.Auth.Flip = hsr[r.Intn(5)]
+	case 1:
+		c.Auth.Bad = []string{"initkey", "ephem"}[r.Intn(2)]
+	}
+	if c.Auth.Flip == "none" && c.Auth.Bad == "none" {
+		c.Ack.Present = true
+		switch r.Intn(12) {
+		case 0:
+			c.Ack.Flip = hsr[r.Intn(5)]
+		case 1:
+			c.Ack.Bad = []string{"randkey", "ephem"}[r.Intn(2)]
+		}
+	}
+	mk := func() []string {
+		fl := []string{}
+		for i, n := 0, r.Intn(6); i < n; i++ {
+			if r.Intn(5) == 0 {
+				fl = append(fl, fr[r.Intn(6)])
+			} else {
+				fl = append(fl, "none")
+			}
+		}
+		return fl
+	}
+	c.FlipsAB, c.FlipsBA = mk(), mk()
+	return c
+}
+
+func sameMsg(a, b msgT) bool { return a.Code == b.Code && bytes.Equal(a.Payload, b.Payload) }
+
+// emitSession logs one session as the sequence of RLPx.tla actions with the observed results.
+func emitSession(tr *tl.Trace, c caseT, a, b sideResult, msgsAB, msgsBA []msgT) int {
+	n0 := tr.N
+	ev := func(m tl.M) { tr.Emit(m) }
+	honestA := c.Auth.Bad != "initkey"
+	honestB := !(c.Ack.Present && c.Ack.Bad == "randkey")
+	res := func(honest bool, r sideResult) string {
+		if !honest {
+			return "n/a"
+		}
+		return r.hs
+	}
+	authClean := c.Auth.Flip == "none" && c.Auth.Bad == "none"
+	ackClean := c.Ack.Flip == "none" && c.Ack.Bad == "none"
+	ev(tl.M{"op": "reset"})
+	ev(tl.M{"op": "SendAuth", "bad": c.Auth.Bad})
+	if c.Auth.Flip != "none" {
+		ev(tl.M{"op": "TamperAuth", "r": c.Auth.Flip})
+	}
+	ev(tl.M{"op": "RecvAuth", "bad": c.Ack.Bad, "res": res(honestB, b), "keyok": b.keyOK})
+	if !authClean {
+		ev(tl.M{"op": "PeerGone", "res": res(honestA, a)})
+	} else {
+		if c.Ack.Flip != "none" {
+			ev(tl.M{"op": "TamperAck", "r": c.Ack.Flip})
+		}
+		ev(tl.M{"op": "RecvAck", "res": res(honestA, a), "keyok": a.keyOK})
+	}
+	dir := func(d string, senderDone, senderHonest bool, msgs []msgT, flips []string, recv sideResult, recvHonest bool) {
+		if !senderDone || !senderHonest {
+			return
+		}
+		for range msgs {
+			ev(tl.M{"op": "Write", "d": d})
+		}
+		for i, f := range flips {
+			if f != "none" {
+				ev(tl.M{"op": "Flip", "d": d, "i": i + 1, "r": f})
+			}
+		}
+		if !recvHonest || recv.hs != "done" {
+			return
+		}
+		for k, m := range recv.delivered {
+			id := 0
+			if k < len(msgs) && sameMsg(m, msgs[k]) {
+				id = k + 1
+			}
+			ev(tl.M{"op": "Read", "d": d, "ok": true, "id": id, "eof": false})
+		}
+		k := len(recv.delivered)
+		if k >= len(msgs) {
+			ev(tl.M{"op": "End", "d": d, "eof": recv.firstErr == io.EOF})
+			return
+		}
+		ev(tl.M{"op": "Read", "d": d, "ok": false, "id": 0, "eof": recv.firstErr == io.EOF})
+		for j, ok := range recv.extra {
+			if k+1+j >= len(msgs) {
+				break
+			}
+			ev(tl.M{"op": "Read", "d": d, "ok": ok, "id": 0, "eof": false})
+		}
+	}
+	dir("AB", authClean && ackClean, honestA, msgsAB, c.FlipsAB, b, honestB)
+	dir("BA", authClean, honestB, msgsBA, c.FlipsBA, a, honestA)
+	return tr.N - n0
+}
+
+func runFuzz(path string, seed int64, n int, big bool, sum *tl.Summary) {
+	r := tl.Rand(seed*7907 + 3)
+	tr := tl.NewTrace(path)
+	defer tr.Close()
+	shapes := map[string]bool{}
+	for i := 0; i < n; i++ {
+		c := randCase(r)
+		a, b, info, mab, mba := runCase(c, r, big)
+		sum.Steps += emitSession(tr, c, a, b, mab, mba)
+		sum.Evaluations++
+		sum.Traces++
+		if len(info.Applied) > 0 {
+			k := fmt.Sprint(c.Auth, c.Ack, c.FlipsAB, c.FlipsBA, info.Snappy, info.Chunks)
+			if !shapes[k] {
+				shapes[k] = true
+				sum.Distinct++
+			}
+			sum.Count("tampered")
+		} else {
+			sum.Count("clean")
+		}
+		if i%50 == 0 {
+			sum.Sample(tl.M{"case": c, "run": info})
+		}
+		if a.writeErr != nil || b.writeErr != nil || a.wireBad || b.wireBad {
+			sum.Violate(fmt.Sprintf("rlpx: Write failed or reported an unexpected wire size (%v / %v)", a.writeErr, b.writeErr), tl.M{"case": c, "run": info})
+		}
+	}
+	sum.Rule = "evaluations = random sessions on real rlpx.Conn pairs; distinct = distinct (handshake tampering, per-frame tampering regions, snappy, chunk pattern) combinations with at least one modified byte"
+}
+
 func main() {
-	mode := flag.String("mode", "cases", "cases")
+	mode := flag.String("mode", "cases", "cases|fuzz")
+	trace := flag.String("trace", "", "ndjson output (fuzz)")
+	nfuzz := flag.Int("n", 300, "sessions (fuzz)")
 	in := flag.String("in", "", "TLC cases")
 	reps := flag.Int("reps", 3, "runs per case (different data dimensions)")
 	big := flag.Bool("big", false, "include megabyte payloads")
@@ -687,6 +829,8 @@ func main() {
 			limitCases(r, sum)
 		}
 		sum.Rule = "evaluations = sessions executed on real rlpx.Conn pairs through the tampering/re-chunking proxy; distinct = distinct (TLC case, snappy, chunk pattern) combinations in which at least one byte on the wire was modified"
+	case "fuzz":
+		runFuzz(*trace, seed, *nfuzz, *big, sum)
 	default:
 		tl.Fatal("unknown mode %s", *mode)
 	}
